@@ -6,8 +6,11 @@
    json_string is encoding/json's string encoder), authenticate_jwt = authenticateJWT, claim_perms = the claim decoding of
    jwtClaims.UnmarshalJSON; matches_permission / excluded are C01's model of matchesPermission.
    Oracles, quantified over in every theorem: rx (regexp), post (the auth server's answer to a body), jwt_parse
-   (golang-jwt + JWKS keyfunc + issuer/audience options: Some (subject, raw claim) iff signature, alg, exp/nbf, iss, aud
-   verify), dec_perms / dec_str (encoding/json on the raw claim). *)
+   (golang-jwt + JWKS keyfunc + the parser options: Some (subject, raw claim) iff signature, alg, exp/nbf, iss, aud
+   verify), dec_perms / dec_str (encoding/json on the raw claim). The issuer/audience settings are modelled, not oracle:
+   authenticate_jwt_cfg = authenticate_jwt on parse_with_claims jwt_verify (parser_opts JWTIssuer JWTAudience), where
+   jwt_verify is golang-jwt + keyfunc WITHOUT options (signature, alg, exp/nbf; returns sub, iss, aud, raw claim),
+   parser_opts is the option list authenticateJWT builds and opt_ok is golang-jwt's verifyIssuer / verifyAudience. *)
 From Coq Require Import List ZArith Bool.
 Require Import MTX.Lib.Utf8 MTX.Lib.Json MTX.Model.C01_Auth MTX.Model.C02_AuthExt MTX.Proofs.C02_AuthExt.
 Import ListNotations.
@@ -72,6 +75,62 @@ Theorem C02_jwt_iff : forall rx jwt_parse dec_perms dec_str ex jwks_ok inq r u,
 Proof. exact jwt_iff. Qed.
 Print Assumptions C02_jwt_iff.
 
+(* jwt method with its issuer/audience settings, for ALL settings: granted iff excluded, or the JWKS is available, a token
+   is present, it verifies (signature/alg/exp/nbf), its iss claim IS the configured issuer when one is configured, the
+   configured audience IS AMONG its aud claim when one is configured, and its permission claim grants the action on the path *)
+Theorem C02_jwt_cfg_iff : forall rx jwt_verify dec_perms dec_str issuer audience ex jwks_ok inq r u,
+  authenticate_jwt_cfg rx jwt_verify dec_perms dec_str issuer audience ex jwks_ok inq r = Granted u <->
+  (excluded rx ex r = true /\ u = []) \/
+  (excluded rx ex r = false /\ jwks_ok = true /\
+   let tok := get_token (in_query_flag true inq) r in
+   tok <> [] /\
+   exists c raw ps, jwt_verify tok = Some c /\ u = jc_sub c /\
+                    (issuer = [] \/ jc_iss c = issuer) /\ (audience = [] \/ In audience (jc_aud c)) /\
+                    jc_raw c = Some raw /\ claim_perms dec_perms dec_str raw = Some ps /\
+                    matches_permission rx ps (x_action r) (x_path r) = true).
+Proof. exact jwt_cfg_iff. Qed.
+Print Assumptions C02_jwt_cfg_iff.
+
+(* each configured setting is enforced whatever the other setting is: a verifying token whose iss is not the configured
+   issuer (in particular: absent), resp. whose aud does not contain the configured audience (absent, empty, other values),
+   is never granted *)
+Theorem C02_jwt_issuer_enforced : forall rx jwt_verify dec_perms dec_str issuer audience ex jwks_ok inq r c,
+  issuer <> [] -> excluded rx ex r = false ->
+  jwt_verify (get_token (in_query_flag true inq) r) = Some c -> jc_iss c <> issuer ->
+  forall u, authenticate_jwt_cfg rx jwt_verify dec_perms dec_str issuer audience ex jwks_ok inq r <> Granted u.
+Proof. exact jwt_cfg_wrong_issuer. Qed.
+Print Assumptions C02_jwt_issuer_enforced.
+
+Theorem C02_jwt_audience_enforced : forall rx jwt_verify dec_perms dec_str issuer audience ex jwks_ok inq r c,
+  audience <> [] -> excluded rx ex r = false ->
+  jwt_verify (get_token (in_query_flag true inq) r) = Some c -> ~ In audience (jc_aud c) ->
+  forall u, authenticate_jwt_cfg rx jwt_verify dec_perms dec_str issuer audience ex jwks_ok inq r <> Granted u.
+Proof. exact jwt_cfg_wrong_audience. Qed.
+Print Assumptions C02_jwt_audience_enforced.
+
+(* the settings only restrict: whatever is granted under some issuer/audience settings is granted with none configured *)
+Theorem C02_jwt_settings_restrict : forall rx jwt_verify dec_perms dec_str issuer audience ex jwks_ok inq r u,
+  authenticate_jwt_cfg rx jwt_verify dec_perms dec_str issuer audience ex jwks_ok inq r = Granted u ->
+  authenticate_jwt_cfg rx jwt_verify dec_perms dec_str [] [] ex jwks_ok inq r = Granted u.
+Proof. exact jwt_cfg_unset_monotone. Qed.
+Print Assumptions C02_jwt_settings_restrict.
+
+(* the option list authenticateJWT passes to golang-jwt: WithIssuer iff an issuer is configured, WithAudience iff an
+   audience is configured - both when both are - and what golang-jwt's checks for them accept *)
+Theorem C02_parser_opts : forall issuer audience o,
+  In o (parser_opts issuer audience) <->
+  (o = WithIssuer issuer /\ issuer <> []) \/ (o = WithAudience audience /\ audience <> []).
+Proof. exact parser_opts_in. Qed.
+Print Assumptions C02_parser_opts.
+
+Theorem C02_opt_issuer : forall c s, s <> [] -> (opt_ok c (WithIssuer s) = true <-> jc_iss c = s).
+Proof. exact opt_issuer_spec. Qed.
+Print Assumptions C02_opt_issuer.
+
+Theorem C02_opt_audience : forall c s, s <> [] -> (opt_ok c (WithAudience s) = true <-> In s (jc_aud c)).
+Proof. exact opt_audience_spec. Qed.
+Print Assumptions C02_opt_audience.
+
 (* where the token comes from: the token field, else the password, else - only for RTSP/RTMP, or for HLS/WebRTC/playback/
    api/metrics/pprof requests when JWT-in-HTTP-query is on - the single "token" query parameter, else the single "jwt"
    one (of a query url.ParseQuery accepts), else nothing *)
@@ -123,6 +182,12 @@ Theorem C02_jwt_ask : forall rx jwt_parse dec_perms dec_str ex jwks_ok inq r a,
 Proof. exact jwt_ask. Qed.
 Print Assumptions C02_jwt_ask.
 
+Theorem C02_jwt_cfg_ask : forall rx jwt_verify dec_perms dec_str issuer audience ex jwks_ok inq r a,
+  authenticate_jwt_cfg rx jwt_verify dec_perms dec_str issuer audience ex jwks_ok inq r = Denied a ->
+  (a = true <-> x_ask r = true /\ x_user r = [] /\ x_pass r = [] /\ get_token (in_query_flag true inq) r = []).
+Proof. exact jwt_cfg_ask. Qed.
+Print Assumptions C02_jwt_cfg_ask.
+
 (* non-vacuity *)
 Definition ex_req (tok pass proto action query : list Z) : xreq :=
   {| x_user := [117]; x_pass := pass; x_token := tok; x_ipstr := [49]; x_action := action; x_path := [112]; x_proto := proto;
@@ -153,5 +218,19 @@ Example C02_example :
   authenticate_jwt (fun _ _ => false) parse decp decs [] true None (ex_req [84] [] p_rtsp a_read []) = Granted [115] /\
   authenticate_jwt (fun _ _ => false) parse decp decs [] true None (ex_req [84] [] p_rtsp a_publish []) = Denied false /\
   authenticate_jwt (fun _ _ => false) parse decp decs [] true None (ex_req [85] [] p_rtsp a_read []) = Denied false /\
-  authenticate_jwt (fun _ _ => false) parse decp decs [] false None (ex_req [84] [] p_rtsp a_read []) = Denied false.
+  authenticate_jwt (fun _ _ => false) parse decp decs [] false None (ex_req [84] [] p_rtsp a_read []) = Denied false /\
+  (* issuer "I" and audience "A" both configured: token T (iss I, aud [X; A]) is granted, token U (iss I, aud X), token V
+     (iss I, no aud), token W (iss J, aud A) and token Y (no iss, aud A) are not; with only the issuer configured U and V
+     are granted, with only the audience configured W and Y are; with neither all five are *)
+  let claims := fun iss aud => {| jc_sub := [115]; jc_iss := iss; jc_aud := aud; jc_raw := Some [34; 65; 34] |} in
+  let verify := fun t : list Z =>
+    if list_eqb t [84] then Some (claims [73] [[88]; [65]]) else if list_eqb t [85] then Some (claims [73] [[88]])
+    else if list_eqb t [86] then Some (claims [73] []) else if list_eqb t [87] then Some (claims [74] [[65]])
+    else if list_eqb t [89] then Some (claims [] [[65]]) else None in
+  let run := fun iss aud t => authenticate_jwt_cfg (fun _ _ => false) verify decp decs iss aud [] true None (ex_req t [] p_rtsp a_read []) in
+  map (run [73] [65]) [[84]; [85]; [86]; [87]; [89]] = [Granted [115]; Denied false; Denied false; Denied false; Denied false] /\
+  map (run [73] []) [[84]; [85]; [86]; [87]; [89]] = [Granted [115]; Granted [115]; Granted [115]; Denied false; Denied false] /\
+  map (run [] [65]) [[84]; [85]; [86]; [87]; [89]] = [Granted [115]; Denied false; Denied false; Granted [115]; Granted [115]] /\
+  map (run [] []) [[84]; [85]; [86]; [87]; [89]] = repeat (Granted [115]) 5 /\
+  parser_opts [73] [65] = [WithIssuer [73]; WithAudience [65]].
 Proof. vm_compute. repeat split. Qed.
